@@ -92,18 +92,18 @@ func newFixtureLog(sid, name string, keyID int, seed int64, dir string) (*fixtur
 
 func (fl *fixtureLog) newPending() *ctlog.PendingLogEntry {
 	e := &ctlog.PendingLogEntry{}
-	e.Certificate = make([]byte, 8+fl.r.Intn(13))
+	e.Certificate = make([]byte, 2+fl.r.Intn(9))
 	fl.r.Read(e.Certificate)
-	if fl.r.Intn(5) < 2 {
+	if fl.r.Intn(10) < 3 {
 		e.IsPrecert = true
 		fl.r.Read(e.IssuerKeyHash[:])
-		e.PreCertificate = make([]byte, 4+fl.r.Intn(9))
+		e.PreCertificate = make([]byte, 2+fl.r.Intn(7))
 		fl.r.Read(e.PreCertificate)
 	}
 	k := 0
-	if x := fl.r.Intn(20); x < 5 {
+	if x := fl.r.Intn(20); x < 3 {
 		k = 1
-	} else if x == 5 {
+	} else if x == 3 {
 		k = 2
 	}
 	for ; k > 0; k-- {
